@@ -1185,8 +1185,8 @@ CORPUS_DIR = [
 ]
 CORPUS_SCRIPT = [
     # FIX-C09-3 (repaired a75c6db): the quote of a here-document line is closed by the LAST character of the source
-    ('', [('here', 'E', '', ["'"], ''), ('tok', _t('N', 'b'), '\n'), ('tok', _t('H', ''), '')], None),
-    ('', [('eol', ' ', "it's", ''), ('str', True, _t('N', 'b'), ' '), ('tok', _t('N', 'x'), ' '), ('tok', _t('H', ''), '')], None),
+    ('', [('here', 'E', '', ["'"], ''), ('tok', _t('N', 'b'), '\n'), ('eol', ' ', "y'", None)], None),
+    ('', [('eol', ' ', "it's", ''), ('str', True, _t('N', 'b'), ' '), ('tok', _t('N', 'x'), ' '), ('eol', ' ', "done'", None)], None),
     # FIX-C09-4 (repaired fbeae85): a :> text that is blank for Python but is a word for the lexer
     ('', [('eol', ' ', '\xa0', ''), ('tok', _t('N', 'file'), ' '), ('str', True, _t('N', 'x'), '')], None),
     ('', [('eol', ' ', '\x0b\x0c', ' '), ('str', False, _t('N', 'b'), '')], None),
